@@ -128,3 +128,109 @@ class read_mouse_info:
 
     def on_raise(old, s, a, exc):
         yield "more-input-asked-only-when-more-can-come-and-the-report-is-incomplete", both(a.more_available, klen(a.keys) < 3)
+
+
+# --------------------------------------------------------------------------------------------- cursor position report
+#
+# ESC [ Pl ; Pc R   (CPR; Pl, Pc decimal, no leading zero since both are >= 1).  `keys` is what follows ESC.
+# Spec functions over the key list (recursive definitions, instantiated groundly at the indices in play):
+#   DE(a)     = end of the maximal run of ASCII digits starting at a:  DE(a) = DE(a+1) if a < n and digit(keys[a]) else a
+#   DEC(a,b)  = decimal value of keys[a:b]:  DEC(a,a) = 0,  DEC(a,b+1) = 10*DEC(a,b) + keys[b] - 48
+
+
+def is_digit(k):
+    return both(48 <= k, k <= 57)
+
+
+def _fn(keys, name, arity):
+    s = _seq(keys)
+    base = getattr(s, "name", None) or f"lit{id(s)}"
+    return z3.Function(f"{base}${name}", *([z3.IntSort()] * (arity + 1)))
+
+
+def DE(keys, a):
+    return mk_int(_fn(keys, "DE", 1)(V._z(a)))
+
+
+def DEC(keys, a, b):
+    return mk_int(_fn(keys, "DEC", 2)(V._z(a), V._z(b)))
+
+
+def unfold_digits(keys, a, j):
+    """Definitional instances at index j (run starting at a): DE(j), DEC(a, a), DEC(a, j+1)."""
+    st = cur()
+    n = klen(keys)
+    inside = both(0 <= j, j < n)
+    kj = kat(keys, imax(0, imin(j, n - 1)))
+    st.assume(implies(0 <= j, DE(keys, j) == ite(both(inside, is_digit(kj)), DE(keys, j + 1), j)))
+    st.assume(DEC(keys, a, a) == 0)
+    st.assume(implies(both(inside, a <= j), DEC(keys, a, j + 1) == 10 * DEC(keys, a, j) + kj - 48))
+    return True
+
+
+def cpr_shape(keys):
+    """(p, q, wellformed, incomplete) of `keys` against  [ d+ ; d+ R  with non-zero leading digits."""
+    n = klen(keys)
+    k = lambda j: kat(keys, imax(0, imin(j, n - 1)))  # noqa: E731
+    p = DE(keys, 1)
+    q = DE(keys, p + 1)
+    unfold_digits(keys, 1, 1)
+    unfold_digits(keys, p + 1, p + 1)
+    opened = both(n >= 1, k(0) == 91)
+    row_ok = both(p > 1, k(1) != 48)
+    sep = both(p < n, k(p) == 59)
+    col_ok = both(q > p + 1, k(p + 1) != 48)
+    wellformed = both(opened, row_ok, sep, col_ok, q < n, k(q) == 82)
+    incomplete = either(n == 0, both(opened, p == n, either(n == 1, k(1) != 48)),
+                        both(opened, row_ok, sep, q == n, either(q == p + 1, k(p + 1) != 48)))
+    return p, q, wellformed, incomplete
+
+
+def _cpr_loop0(v):
+    keys, n = v.keys, klen(v.keys)
+    unfold_digits(keys, 1, v.i)
+    unfold_digits(keys, 1, v.i - 1)
+    yield "index-tracks-the-iteration", both(v.i == 1 + v.i_, v.i <= n)
+    yield "row-is-the-decimal-value-read-so-far", both(v.y == DEC(keys, 1, v.i), v.y >= 0)
+    yield "only-digits-so-far", DE(keys, 1) == DE(keys, v.i)
+    yield "no-leading-zero", implies(v.i > 1, both(v.y >= 1, kat(keys, 1) != 48))
+    yield "nothing-read-yet-means-zero", implies(v.i == 1, v.y == 0)
+
+
+def _cpr_loop1(v):
+    keys, n = v.keys, klen(v.keys)
+    i1 = v.at_entry.i
+    unfold_digits(keys, i1, v.i)
+    unfold_digits(keys, i1, v.i - 1)
+    yield "index-tracks-the-iteration", both(v.i == i1 + v.i_, v.i <= n)
+    yield "column-is-the-decimal-value-read-so-far", both(v.x == DEC(keys, i1, v.i), v.x >= 0)
+    yield "only-digits-so-far", DE(keys, i1) == DE(keys, v.i)
+    yield "no-leading-zero", implies(v.i > i1, both(v.x >= 1, kat(keys, imin(i1, n - 1)) != 48))
+    yield "nothing-read-yet-means-zero", implies(v.i == i1, v.x == 0)
+
+
+@contract(ES + "KeyqueueTrie.read_cursor_position", property="C05", replayable=False)
+class read_cursor_position:
+    self_shape = TRIE0
+    params = dict(keys=CODES, more_available=Bool)
+    raises = (_esc.MoreInputRequired,)
+
+    def ensures(old, s, a, result):
+        p, q, wellformed, incomplete = cpr_shape(a.keys)
+        if result is None:
+            yield "none-only-when-not-a-report", neg(wellformed)
+            yield "none-on-a-truncated-report-only-when-nothing-more-can-come", implies(incomplete, neg(a.more_available))
+            return
+        (name, x, y), rem = result
+        yield "reported-exactly-on-wellformed-reports", wellformed
+        yield "documented-name", name == "cursor position"
+        yield "row-and-column-are-the-decimal-values-less-one", both(y == DEC(a.keys, 1, p) - 1, x == DEC(a.keys, p + 1, q) - 1)
+        yield "coordinates-non-negative", both(x >= 0, y >= 0)
+        yield "consumes-through-the-R-left-to-right", is_suffix_from(rem, a.keys, q + 1)
+
+    def on_raise(old, s, a, exc):
+        p, q, wellformed, incomplete = cpr_shape(a.keys)
+        yield "more-input-asked-only-when-more-can-come", a.more_available
+        yield "more-input-asked-only-on-a-proper-prefix-of-a-report", incomplete
+
+    loops = {0: Loop(invariant=_cpr_loop0), 1: Loop(invariant=_cpr_loop1)}
